@@ -18,7 +18,7 @@ from .. import core, monitors, c16runner
 
 ID = 'C16'
 LEVEL = 'exploration'
-RULE = ('pool of 84 programs built to interfere (same label / constant names with different values, programs that use a name only another '
+RULE = ('pool of 91 programs built to interfere (same label / constant names with different values, programs that use a name only another '
         'program defines, failing programs of every error class, include trees with include_dirs, both modes, with and without caller '
         'dictionaries); solo reference = one fresh interpreter per pool entry; histories = seeded random sequences of 200 calls with immediate '
         'repeats, A-B-A patterns and failure-then-success, every call compared with its solo result (bytes, ordered label and constant tables, '
